@@ -495,12 +495,46 @@ func checkAddCannotFail(p *Prog, r *Report) {
 				case fx != "" || fy != "":
 					return false, "a test of the definition's field " + fx + fy
 				}
-				return true, ""
-			case *ssa.Call:
-				if g := c.Common().StaticCallee(); g != nil && g.Pkg == f.Pkg {
-					return true, "" // expanded by expandFacts where it is a predicate
+				if _, isStruct := c.X.Type().Underlying().(*types.Struct); isStruct {
+					return false, "a comparison of whole definitions (every field, not the name)"
+				}
+				if bt, isB := c.X.Type().Underlying().(*types.Basic); isB && bt.Info()&types.IsString != 0 {
+					for _, side := range []ssa.Value{c.X, c.Y} {
+						if hc, _ := callOf(side); hc != nil && builtinName(hc.Common()) == "" {
+							return false, "a comparison of computed strings (" + p.describe(hc) + "), not of the names as they are"
+						}
+					}
 				}
 				return true, ""
+			case *ssa.Call:
+				g := c.Common().StaticCallee()
+				if g == nil || builtinName(c.Common()) != "" {
+					return true, ""
+				}
+				if g.Pkg != f.Pkg {
+					if g.Signature.Results().Len() == 1 {
+						if bt, ok := g.Signature.Results().At(0).Type().Underlying().(*types.Basic); ok && bt.Kind() == types.Bool {
+							return false, "a test by " + fullName(g) + " (not the exact comparison of names)"
+						}
+					}
+					return true, ""
+				}
+				if sum := existsPredicate(g); sum != nil {
+					if nameField[sum.elemField] {
+						return true, ""
+					}
+					return false, "a search helper that does not compare names"
+				}
+				hasLoop := false
+				for _, b := range g.Blocks {
+					if naturalLoop(b) != nil {
+						hasLoop = true
+					}
+				}
+				if hasLoop {
+					return false, "the search helper " + funcName(g) + ", which is not a plain scan comparing an existing name with the new one"
+				}
+				return true, "" // a loop-free predicate: its tests are judged one by one after expansion
 			}
 			return true, ""
 		}
